@@ -34,6 +34,8 @@ Ltac peq :=
     | |- @eq arg (AZ _) (AZ _) => f_equal; peq
     | |- @eq arg (AP _) (AP _) => f_equal; peq
     | |- @eq arg (APO _ _) (APO _ _) => f_equal; peq
+    | |- @eq arg (AStruct _) (AStruct _) => f_equal; peq
+    | |- @eq eff (Carry _ _) (Carry _ _) => f_equal; peq
     | |- @eq ptr (PPost _ _) (PPost _ _) => f_equal; peq
     | |- @eq eff (Copy _ _ _) (Copy _ _ _) => f_equal; peq
     | |- @eq eff (CopyAt _ _ _ _) (CopyAt _ _ _ _) => f_equal; peq
